@@ -8,17 +8,24 @@ from harness import common  # noqa
 
 
 def setup():
+    """Build the cone of every claimed property (files of properties not yet claimed may be work in progress)."""
+    import json
+    claimed = [c['property_id'] for c in json.load(open(os.path.join(common.VERIF, 'MANIFEST.json')))['checks']]
+    targets = [f'props/Prop{p}.vo' for p in claimed]
+    for extra in ('theories/ScriptKnown.vo', 'theories/EdTie.vo'):
+        if os.path.exists(os.path.join(common.COQ, extra[:-1])):
+            targets.append(extra)
     with common.Lock():
         tr = common.regen()
         common.coq_project()
-        ok, log = common.coq_make([], timeout=3400)   # default target: everything
+        ok, log = common.coq_make(targets, timeout=3400)
     for k, v in tr.items():
         if v:
             print(f'translator: {k}: {v}')
     if not ok:
         print(log[-3000:])
         return 1
-    print('setup ok')
+    print('setup ok:', ' '.join(claimed))
     return 0
 
 
